@@ -785,6 +785,8 @@ class Runner:
                 sig = SIG_F4
             if self.selfreach:
                 sig = SIG_F10
+            elif self.shadow_default:
+                sig = SIG_F14
             self.hits09.append(_hit(sig, "%s raised %s but the notifier populations changed" % (
                 "observe(remove=True)" if rm else "observe", exc_name(exc)),
                 op=op, left_behind=sorted(str(k) for k in (after - before).keys())[:6],
@@ -876,6 +878,39 @@ class Runner:
                     if got != want:
                         self.reach_hit("fires-iff-reachable", "bump of %d.%s: handler calls %s, reachable for %s" % (
                             i, name, dict(got), dict(want)))
+        return out
+
+    def probe_sparse(self):
+        """Probe after a pool object was collected: the remaining objects only."""
+        w = self.w
+        keep = w.pool
+        out = []
+        spec = collections.Counter()
+        for (hid, root, g), n in self.ledger.items():
+            for _ in range(n):
+                w.spec_walk(g, keep[root], (hid, root), spec)
+        for i, o in enumerate(keep):
+            if o is None:
+                continue
+            for name in INT_FIELDS:
+                if name not in o.traits():
+                    continue
+                try:
+                    v = getattr(o, name)
+                    w.drain()
+                    setattr(o, name, v + 1)
+                except Exception as e:
+                    out.append("!%d.%s:%s" % (i, name, exc_name(e)))
+                    continue
+                evs = w.drain()
+                got = collections.Counter(h for h, _ in evs)
+                want = collections.Counter()
+                for k, n in spec.items():
+                    if k[0] == ("t", i, name) and k[1] == "u" and n > 0 and k[2] not in w.dead:
+                        want[k[2]] += 1
+                if got != want:
+                    self.hits08.append(_hit("gc:calls-after-collection", "bump of %d.%s: handler calls %s, expected %s" % (
+                        i, name, dict(got), dict(want))))
         return out
 
     def check_reach(self):
@@ -986,7 +1021,11 @@ class Runner:
                         self.check_selfreach(pre)
             except Skip:
                 status = "err Other"
-            w.tmp_id = w.tmp_id
+            self.old_value = None
+            pre_target = None if pre is None else pre["target"]
+            pre_olds = None if pre is None else bool(pre["olds"])
+            pre_news = None if pre is None else bool(pre["news"])
+            pre = None if pre is None else {"target": pre_target, "olds": pre_olds, "news": pre_news}
             evs = w.drain()
             dstr = " ".join(sorted(w.show_event(h, ev) for h, ev in evs))
             self.delivery_oracle(op, status, evs, pre)
@@ -1258,7 +1297,7 @@ def history_c08(rng, maxops=12):
     return header(g, gen_dflts(rng, g.n)) + ";".join(g.ops[:maxops])
 
 
-def history_c09(rng, maxops=12):
+def history_c09(rng, maxops=12, gc_case=False):
     """Interleave observe / unobserve of 2 handlers x a few expressions with
     mutations; inject failing registrations."""
     g = Gen(rng)
@@ -1293,7 +1332,7 @@ def history_c09(rng, maxops=12):
             g.ops.append("%s %d %d %s" % ("obs" if rng.random() < 0.85 else "unobs", hid,
                                           0 if rng.random() < 0.7 else g.obj(),
                                           " ".join(rpn_of(gen_bad_expr(rng)))))
-        elif x < 0.70 and active and not killed:
+        elif x < 0.70 and active and not killed and not gc_case:
             hid = rng.choice([0, 1])
             killed.add(hid)
             g.ops.append("kill %d" % hid)
@@ -1346,3 +1385,154 @@ def exhaustive_small(max_len, exprs=None):
             for k in range(1, max_len + 1):
                 for hist in itertools.product(alphabet, repeat=k):
                     yield "obs|3|N,N,N|" + ";".join(pre + [obs] + list(hist))
+
+
+def failure_positions(maxlen):
+    """Failure injected at every position k of walks of 1..maxlen nodes, over a ring
+    0 -> 1 -> 2 -> 0 (child) whose objects also hold lists; with and without completed
+    sibling subtrees; for registration and for removal."""
+    pre = ["set 0 child 1", "set 1 child 2", "set 2 child 0", "setl 0 kids 100 [1,2]", "setl 1 kids 102 [2,0]",
+           "setl 2 kids 104 [0,1]", "addt 1 extra 0"]
+    bads = [[t("nosuch")], [("li", True, False)], [t("value"), t("value")], [t("extra")]]
+    for L in range(1, maxlen + 1):
+        for k in range(L):
+            for bad in bads:
+                for shape in ("chain", "sib-before", "sib-after", "items"):
+                    def build(i):
+                        if i == L:
+                            return t("value")
+                        link = [t("child")] if shape != "items" else [t("kids"), ("li", True, False)]
+                        if i == k:
+                            link = bad
+                        rest = build(i + 1)
+                        if shape == "sib-before":
+                            rest = par(t("value"), rest) if canon_ast(rest) != canon_ast(t("value")) else rest
+                        elif shape == "sib-after":
+                            rest = par(rest, t("value")) if canon_ast(rest) != canon_ast(t("value")) else rest
+                        return seq(*(link + [rest]))
+                    if shape == "items" and L > 6:
+                        continue
+                    e = " ".join(rpn_of(build(0)))
+                    yield "obs|3|N,N,N|" + ";".join(pre + ["obs 0 0 " + e])
+    # removal that fails midway: register a good walk, break it at depth k, unregister
+    for L in range(1, min(maxlen, 6) + 1):
+        good = seq(*([t("kids"), ("li", True, False)] * L + [t("value")]))
+        e = " ".join(rpn_of(good))
+        for c in (100, 102, 104):
+            for pos in (0, 1):
+                yield "obs|3|N,N,N|" + ";".join(pre + ["obs 0 0 " + e, "ls %d %d 99" % (c, pos), "unobs 0 0 " + e])
+
+
+# --------------------------------------------------------------------------- GC clause (TEST)
+
+def _inbound(w, r):
+    """Is pool object r referenced from another live pool object or container?"""
+    for i, o in enumerate(w.pool):
+        if o is None or o is r:
+            continue
+        for v in o.__dict__.values():
+            if v is r:
+                return True
+            if isinstance(v, dict):
+                if any(x is r for x in v.values()):
+                    return True
+            elif isinstance(v, (list, set)):
+                if any(x is r for x in v):
+                    return True
+        d = _DEFAULT.get(id(o))
+        if d is not None and d() is r and "child" not in o.__dict__:
+            pass
+    for c, x in w.objs.items():
+        if c >= 100:
+            vals = x.values() if isinstance(x, dict) else x
+            owner_is_r = False
+            if any(v is r for v in vals):
+                # a container owned only by r itself does not count
+                for o in w.pool:
+                    if o is not None and o is not r and any(x is y for y in o.__dict__.values()):
+                        return True
+                # detached container held by the harness: counts as a reference
+                if not any(x is y for y in r.__dict__.values()):
+                    return True
+    return False
+
+
+def run_gc_case(case):
+    """TEST of the runtime clause of C09 at every point of the history."""
+    _, n, dflts, ops = case.split("|")
+    ops = [o for o in ops.split(";") if o.strip()]
+    hits = []
+    tags = set(["gc"])
+    points = 0
+    for k in range(1, len(ops) + 1):
+        prefix = "obs|%s|%s|%s" % (n, dflts, ";".join(ops[:k]))
+        # ---- A: the handler's owner is collected
+        r = Runner(prefix)
+        r.run()
+        if r.tainted or r.selfreach or any(x.startswith(("probe-err", "mut-err")) for x in r.tags):
+            continue
+        w = r.w
+        for hid in sorted(w.recorders):
+            ref = weakref.ref(w.recorders[hid])
+            w.recorders.pop(hid)
+            w.dead.add(hid)
+            gc.collect()
+            points += 1
+            if ref() is not None:
+                hits.append(_hit("gc:handler-owner-kept-alive", "a registration keeps the bound-method handler's owner alive",
+                                 case=prefix, handler=hid))
+                continue
+            before = len(r.hits08)
+            out = r.probe()
+            if any(s.startswith("!") for s in out):
+                hits.append(_hit("gc:probe-raised-after-collection", "a change raised after the handler's owner was collected",
+                                 case=prefix, handler=hid, probe=out))
+            if len(r.hits08) > before:
+                hits.append(_hit("gc:called-after-collection", r.hits08[-1]["what"], case=prefix, handler=hid))
+            tags.add("gc:handler-owner")
+        # ---- B: an observing / observed object nobody else refers to is collected
+        for cand in range(int(n)):
+            r = Runner(prefix)
+            r.run()
+            if r.tainted or r.selfreach or any(x.startswith(("probe-err", "mut-err")) for x in r.tags):
+                break
+            w = r.w
+            obj = w.pool[cand]
+            if _inbound(w, obj):
+                continue
+            is_target = any(kk[1] == cand for kk in r.ledger)
+            ref = weakref.ref(obj)
+            # forget every harness reference to it and to the containers only it owns
+            own = [c for c, x in w.objs.items() if c >= 100 and any(x is y for y in obj.__dict__.values())]
+            for c in own:
+                w.ids.pop(id(w.objs[c]), None)
+                del w.objs[c]
+                if c in w.declared:
+                    w.declared.remove(c)
+            w.ids.pop(id(obj), None)
+            del w.objs[cand]
+            w.pool[cand] = None
+            for kk in [kk for kk in r.ledger if kk[1] == cand]:
+                del r.ledger[kk]
+            del obj
+            gc.collect()
+            points += 1
+            if ref() is not None:
+                hits.append(_hit("gc:observed-object-kept-alive",
+                                 "an object nobody refers to stays alive after it observed / was observed",
+                                 case=prefix, object=cand, was_target=is_target))
+                continue
+            tags.add("gc:target" if is_target else "gc:object")
+            # whatever it was the target of must now be mute; everything else as before
+            w.pool = [o for o in w.pool]
+            before = len(r.hits08)
+            try:
+                out = r.probe_sparse()
+            except Exception as e:
+                out = ["!harness:" + exc_name(e)]
+            if any(s.startswith("!") for s in out):
+                hits.append(_hit("gc:probe-raised-after-collection", "a change raised after the object was collected",
+                                 case=prefix, object=cand, probe=out))
+            if len(r.hits08) > before and is_target:
+                hits.append(_hit("gc:called-after-collection", r.hits08[-1]["what"], case=prefix, object=cand))
+    return "gc points=%d" % points, hits, tags
